@@ -33,11 +33,12 @@ ReaderKinds == {"buffer", "pedantic", "sstream", "fstream", "fd", "fdbad"}
 \* "fdbad": FdReader on a descriptor that cannot be read (EBADF): no byte is ever delivered, every transfer of at
 \* least one byte fails with IOError
 IOErr == 16
-WriterKinds == {"buffer", "pedantic", "constexpr", "sstream", "fd", "lstream", "fdfull"}
+WriterKinds == {"buffer", "pedantic", "constexpr", "sstream", "fd", "lstream", "fdfull", "fdpart"}
 \* "lstream": StreamWriter over an output stream whose buffer takes exactly cap bytes; "fdfull": FdWriter on a
-\* descriptor that takes nothing (ENOSPC) - the error paths of the unchecked writers
-Unprepared == {"sstream", "fd", "lstream", "fdfull"}      \* Prepare() checks nothing
-FailCode(kind) == IF kind = "lstream" THEN StreamErr ELSE IF kind = "fdfull" THEN IOErr ELSE WriteLimit
+\* descriptor that takes nothing (ENOSPC); "fdpart": FdWriter on a non-blocking pipe with room for exactly cap more
+\* bytes (a block may be taken in part, then EAGAIN) - the error paths of the unchecked writers
+Unprepared == {"sstream", "fd", "lstream", "fdfull", "fdpart"}      \* Prepare() checks nothing
+FailCode(kind) == IF kind = "lstream" THEN StreamErr ELSE IF kind \in {"fdfull", "fdpart"} THEN IOErr ELSE WriteLimit
 CheckedWriters == {"pedantic", "constexpr"}
 
 \* the code a reader reports when its data runs out
